@@ -8,7 +8,7 @@ FUNCTIONS = ["evrpc_make_request", "evrpc_make_request_ctx", "evrpc_schedule_req
              "evrpc_reply_done_closure", "evrpc_request_timeout", "evrpc_pause_request", "evrpc_resume_request", "evrpc_pool_schedule",
              "evrpc_request_cb", "evrpc_request_cb_closure", "evrpc_request_done", "evrpc_request_done_closure", "evrpc_reqstate_free_",
              "evrpc_process_hooks", "evrpc_add_hook", "evrpc_register_generic", "evrpc_init", "evrpc_free", "evrpc_pool_new", "evrpc_pool_free"]
-BOUNDS = ("one pool, one connection, one RPC; output and input hook each none / CONTINUE / TERMINATE / PAUSE+resume(CONTINUE|TERMINATE) "
+BOUNDS = ("one pool, one connection, one RPC (two RPCs in the queue obligations); output and input hook each none / CONTINUE / TERMINATE / PAUSE+resume(CONTINUE|TERMINATE) "
           "(enumerated per obligation); evhttp_make_request accepts or refuses; completion by reply (solver-chosen unmarshal verdict) or by "
           "the RPC timer; server: one registered RPC, solver-chosen method, body length, request_new / unmarshal / reply_new / "
           "reply_complete verdicts")
@@ -58,6 +58,12 @@ def obligations(tier):
     obs.append(client(0, 0, 1, 0, timeout=0))                 # refused, no pool timeout: fine
     obs.append(client(0, 0, 1, 0, **KF_T))                    # refused after the timer was armed
     obs.append(client(2, 0, 0, 0, **KF_L)); obs.append(client(4, 0, 0, 0, **KF_L))
+    for comp in (1, 0):
+        obs.append(ob("client_queue_%s" % ("timer" if comp else "reply"), "harness_client_queue",
+                      "two RPCs on a pool with one connection: the second waits in the pool; when the first ends by %s the queued one is started (marshalled, "
+                      "handed to the HTTP layer, timer armed) and completes: each callback exactly once, nothing pending, nothing leaked"
+                      % ("its timer (completion without a request object)" if comp else "a reply"),
+                      ["C43_COMPLETION=%d" % comp, "C43_POOL_TIMEOUT=5", "C43_OUT_HOOK=0", "C43_IN_HOOK=0"]))
     for ih, oh in ((0, 0), (1, 1), (2, 0), (3, 0), (4, 0), (0, 2), (0, 3), (0, 4)):
         obs.append(server(ih, oh))
     if full:
